@@ -4,7 +4,15 @@ from .. import common
 from . import ppcheck
 
 
+import re
+
+K_SEMI_EMPTY_BLOCK = ('C02 minify drop_semi: the `;` that ends a statement is dropped when only the braces of empty blocks (and closing braces) follow it, '
+                      'although it is then followed by `{`')
+
+
 def keyfn(kind, msg, itext, cfg):
+    if cfg[0] == 'minify' and cfg[1] and re.search(r';\s*\{\s*\}(?:\s*[{}])*\s*$', itext):
+        return K_SEMI_EMPTY_BLOCK
     return 'C02 %s: %s | %s' % (cfg, msg.split(':')[0][:100], itext[:60])
 
 
